@@ -55,6 +55,7 @@ FreeC17Clauses(rec) ==
   \cup If(rec.restartHead # rec.head \/ rec.restartTail # rec.finalTail, "C17_final_state_survives_a_clean_restart")
   \cup If(Len(rec.missing) # 0 \/ rec.finalTail = 0 \/ rec.finalTail > rec.head, "C17_gap_free_chain_after_racing_tail_delete")
   \cup If(rec.finalTail # rec.tailWant, "C17_tail_is_where_the_last_successful_delete_left_it")
+  \cup If(rec.head # rec.headWant, "C17_store_equals_a_sequential_execution_of_the_same_appends")
 
 Kind(rec) == IF "kind" \in DOMAIN rec THEN rec.kind ELSE ""
 Clauses(rec) ==
